@@ -2,24 +2,125 @@
 """Regenerates MANIFEST.json from the table below (kept in one place so that it stays valid)."""
 import json, subprocess
 CLAIMED = {
- "C02": dict(level="exploration", technique="bounded-exhaustive operand-tuple enumeration on the real code (all 256^2 pairs / 64^3..256^3 triples x 6 orders x thread configs), model-table oracle",
-             text="Every operand tuple over the 256 three-variable functions is executed on the real library for every variable order and thread configuration and compared with a truth-table model through an independent interpreter of the stored diagram; this is a complete enumeration of the stated finite space, not a sample.",
-             note="index backend only (pointer backend: C20); operands over >4 variables not enumerated; harness interpreter and builder trusted (cross-checked against each other and eval)", ref="3/C02"),
- "C04": dict(level="exploration", technique="bounded-exhaustive enumeration on the real code: all functions x all variable subsets / literal cubes / 13^3 replacement vectors x 6 orders, substitution-reuse histories; truth-table oracle",
-             text="All 256 functions x all 8 variable subsets (3 quantifiers), all 27 restriction cubes, all 8 inner operators x pairs for the combined forms and all 2197 replacement vectors are executed for every order with 1 and 2 workers; substitution objects are reused and alternated with gc in between. Complete enumeration of the n=3 space (n=4 unary block in thorough).",
-             note="ZBDD: restrict only (the library offers nothing else); operands over >4 variables not enumerated", ref="3/C04"),
- "C09": dict(level="exploration", technique="bounded-exhaustive enumeration on the real code: all 256 families / 65536 pairs x 6 orders, make_node over all admissible (var,hi,lo), add_vars histories; set-family model oracle",
-             text="Every family over 3 variables (and every pair) is run through every set operation under every order; make_node is called for every admissible argument triple; variables are added twice and all old handles re-read as families and as Boolean functions over the larger domain.",
-             note="families over >4 variables not enumerated", ref="3/C09"),
- "C13": dict(level="exploration", technique="bounded-exhaustive enumeration on the real code: 256 functions x 6 orders x all choice vectors x all 27 literal sets x 64 RNG seeds (exact stream replay); cube predicted from the truth-table model",
-             text="For every function, order, per-level choice vector and literal set the exact expected cube is derived from the model (forced / don't-care / choice) and compared, the choice-closure protocol is recorded and checked, and uniform picking is replayed draw by draw against models-proportional branch probabilities.",
-             note="uniformity is established by exact agreement with the model's branch probabilities, not by statistics; n<=4", ref="3/C13"),
- "C08": dict(level="model_checking", technique="bounded-exhaustive exploration of the real code: all source orders x all (partial) requests with all functions alive (n=3; n=4 totals), depth-bounded histories of reorderings mixed with operations/drops/gc; model oracle (tables, Kendall-tau minimum, minimal diagram size) + structural/ref-count audit; one process-isolated group per case",
-             text="Every (source order, request) pair is executed on the real manager with every function alive and checked against the model (order established, minimal number of adjacent swaps by brute force, every table preserved, canonical, exact reference counts, minimal node counts); chains of reorderings interleaved with operations, drops and gc are enumerated to a depth bound and every state is audited and compared with a manager built directly in the final order.",
-             note="sequential bubble sort only in this revision (the concurrent variant needs >= 65536 nodes; see DESIGN.md); MTBDD/TDD reordering not yet enumerated; orders on >4 variables not enumerated", ref="3/C08"),
- "C11": dict(level="exploration", technique="bounded-exhaustive operand-tuple enumeration on the real code (n=1: all 27^2 pairs and 27^3 triples; n=2: all 19683 functions x representative set, thorough all 19683^2 pairs) against literal three-valued truth tables",
-             text="Every operand tuple over the one-variable three-valued functions and (quick) every two-variable function against a 60-function set, in both orders, is executed and compared with tables typed in from the property statement; constants, var, not, cofactors and eval under all three-valued assignments included.",
-             note="n<=2; ite for n=2 over representative sets; index backend", ref="3/C11"),
+ "C02": {
+  "level": "exploration",
+  "technique": "bounded-exhaustive operand-tuple enumeration on the real code (all 256^2 pairs / 64^3..256^3 triples x 6 orders x thread configs), model-table oracle",
+  "text": "Every operand tuple over the 256 three-variable functions is executed on the real library for every variable order and thread configuration and compared with a truth-table model through an independent interpreter of the stored diagram; this is a complete enumeration of the stated finite space, not a sample.",
+  "note": "index backend only (pointer backend: C20); operands over >4 variables not enumerated; harness interpreter and builder trusted (cross-checked against each other and eval)",
+  "ref": "3/C02"
+ },
+ "C04": {
+  "level": "exploration",
+  "technique": "bounded-exhaustive enumeration on the real code: all functions x all variable subsets / literal cubes / 13^3 replacement vectors x 6 orders, substitution-reuse histories; truth-table oracle",
+  "text": "All 256 functions x all 8 variable subsets (3 quantifiers), all 27 restriction cubes, all 8 inner operators x pairs for the combined forms and all 2197 replacement vectors are executed for every order with 1 and 2 workers; substitution objects are reused and alternated with gc in between. Complete enumeration of the n=3 space (n=4 unary block in thorough).",
+  "note": "ZBDD: restrict only (the library offers nothing else); operands over >4 variables not enumerated",
+  "ref": "3/C04"
+ },
+ "C09": {
+  "level": "exploration",
+  "technique": "bounded-exhaustive enumeration on the real code: all 256 families / 65536 pairs x 6 orders, make_node over all admissible (var,hi,lo), add_vars histories; set-family model oracle",
+  "text": "Every family over 3 variables (and every pair) is run through every set operation under every order; make_node is called for every admissible argument triple; variables are added twice and all old handles re-read as families and as Boolean functions over the larger domain.",
+  "note": "families over >4 variables not enumerated",
+  "ref": "3/C09"
+ },
+ "C13": {
+  "level": "exploration",
+  "technique": "bounded-exhaustive enumeration on the real code: 256 functions x 6 orders x all choice vectors x all 27 literal sets x 64 RNG seeds (exact stream replay); cube predicted from the truth-table model",
+  "text": "For every function, order, per-level choice vector and literal set the exact expected cube is derived from the model (forced / don't-care / choice) and compared, the choice-closure protocol is recorded and checked, and uniform picking is replayed draw by draw against models-proportional branch probabilities.",
+  "note": "uniformity is established by exact agreement with the model's branch probabilities, not by statistics; n<=4",
+  "ref": "3/C13"
+ },
+ "C08": {
+  "level": "model_checking",
+  "technique": "bounded-exhaustive exploration of the real code: all source orders x all (partial) requests with all functions alive (n=3; n=4 totals), depth-bounded histories of reorderings mixed with operations/drops/gc; model oracle (tables, Kendall-tau minimum, minimal diagram size) + structural/ref-count audit; one process-isolated group per case",
+  "text": "Every (source order, request) pair is executed on the real manager with every function alive and checked against the model (order established, minimal number of adjacent swaps by brute force, every table preserved, canonical, exact reference counts, minimal node counts); chains of reorderings interleaved with operations, drops and gc are enumerated to a depth bound and every state is audited and compared with a manager built directly in the final order.",
+  "note": "sequential bubble sort only in this revision (the concurrent variant needs >= 65536 nodes; see DESIGN.md); MTBDD/TDD reordering not yet enumerated; orders on >4 variables not enumerated",
+  "ref": "3/C08"
+ },
+ "C11": {
+  "level": "exploration",
+  "technique": "bounded-exhaustive operand-tuple enumeration on the real code (n=1: all 27^2 pairs and 27^3 triples; n=2: all 19683 functions x representative set, thorough all 19683^2 pairs) against literal three-valued truth tables",
+  "text": "Every operand tuple over the one-variable three-valued functions and (quick) every two-variable function against a 60-function set, in both orders, is executed and compared with tables typed in from the property statement; constants, var, not, cofactors and eval under all three-valued assignments included.",
+  "note": "n<=2; ite for n=2 over representative sets; index backend",
+  "ref": "3/C11"
+ },
+ "C01": {
+  "level": "model_checking",
+  "technique": "depth-bounded exhaustive exploration of operation histories on the real managers (13-action alphabet on 3 handle registers, 5 kinds, fresh manager per history, model in lock-step) + all-pairs comparison of two construction routes for all 256 functions x 6 orders",
+  "text": "Every history up to the depth bound is executed on the real code and after every step all live handle pairs are compared (== / Hash / Ord vs. model tables) and each handle is compared with a fresh bottom-up construction of the same function; independently all 65536 pairs of (route A, route B) handles are compared per kind and order.",
+  "note": "depth 4 (quick) / 5 (thorough); histories are not pruned by abstract state; index backend; functions over >5 variables not enumerated",
+  "ref": "3/C01"
+ },
+ "C03": {
+  "level": "model_checking",
+  "technique": "depth-bounded exhaustive history exploration on the real managers with a structural auditor (public API only) and a minimal-diagram-size oracle after every step, ample and tight (failing) node stores",
+  "text": "After every step of every explored history the whole stored graph is audited (order, reduction rules, duplicates, level bookkeeping, var/level maps) and node_count of every live handle must equal the size of the unique reduced diagram computed from the model table.",
+  "note": "depth 4/5; DDDMP import and named variables are audited in C15/C16; index backend",
+  "ref": "3/C03"
+ },
+ "C05": {
+  "level": "model_checking",
+  "technique": "depth-bounded exhaustive history exploration on the real managers with the reference-count equation, gc exactness, teardown and capacity-probe oracles after every step / history",
+  "text": "For every explored history: after each step every stored node's ref_count equals live handles + stored parent edges (+ manager-held ZBDD chain); each gc leaves exactly the reachable nodes and returns the number it removed; after dropping everything the manager is back at its initial node count and a capacity probe shows no lost slot.",
+  "note": "depth 4/5; background collector wake-up not driven (see C07); terminal reference counts only through num_terminals; index backend",
+  "ref": "3/C05"
+ },
+ "C06": {
+  "level": "model_checking",
+  "technique": "depth-bounded exhaustive history exploration executed in lock-step on managers differing only in apply-cache capacity (1, 2, 16, 4096, warmed-up), differential + model oracle, every operation re-issued",
+  "text": "Every explored history runs on up to five managers; after each step all registers of all managers must denote the model's function with the model's minimal node count, and re-issuing an operation must return the identical handle; gc, reorderings and add_vars are part of the alphabet, so stale entries surviving them are reachable.",
+  "note": "depth 4/5; alphabet of 5 operations per kind (different operators on the same operand registers); index backend",
+  "ref": "3/C06"
+ },
+ "C10": {
+  "level": "exploration",
+  "technique": "bounded-exhaustive enumeration on the real code: all boundary scalar pairs for I64/F64, all 2401x96 (thorough 2401^2) value-table pairs for n=2 in both orders for 6 operators, ite/restrict/constant/var/eval, all 2-3 step operator histories on the same operands with cache capacities 1 and 4096; exact-integer / IEEE model",
+  "text": "Scalar arithmetic is checked on every pair of boundary values against an exact integer model; diagram operations on every pair of value tables over a 7-value alphabet; operator sequences on identical operands expose cache-key confusion.",
+  "note": "n<=3; 4-variable and random operands not enumerated; NaN absorption for min/max assumed as implemented by the NaN terminal shortcut",
+  "ref": "3/C10"
+ },
+ "C12": {
+  "level": "exploration",
+  "technique": "bounded-exhaustive enumeration on the real code: all 256 functions x 6 orders x 3 kinds x 10 variable counts x 4 number types with shared/reused caches (drop+gc+rebuild for all 256x256 pairs, reorder, vars change); Natural: all pairs/triples of an 85-value boundary set, all shifts, conversions and 24 format templates; own Vec<u32> big-integer oracle",
+  "text": "sat_count is compared with popcount * 2^(vars-n) for every function, order, variable count and number type under every cache-reuse history in the bound; Natural's +, <<, >>, comparisons, conversions and textual output are compared with an independent school-arithmetic implementation on a boundary grid.",
+  "note": "n<=4; 512-bit random operands replaced by the boundary grid; NaN ordering/formatting not judged",
+  "ref": "3/C12"
+ },
+ "C15": {
+  "level": "fault_enumeration",
+  "technique": "bounded-exhaustive round trips (all single roots, pairs, triples x full settings cross product x 6 orders x 4 kinds) and exhaustive fault enumeration (every proper prefix, every position x 11-byte alphabet, all 256 values on the first binary node bytes, hand-made oversized counts) of representative files, audit after every import",
+  "text": "Every exported file in the bound is re-imported into the same and into fresh managers and compared (handles, tables, header fields, strict-mode verdicts); every enumerated mutant of 13 files is imported and must yield Err or a manager that passes the full audit, never a panic/abort/hang or a leaked reference.",
+  "note": "n=3 (n=4 thorough); TDD export only; byte substitutions one position at a time",
+  "ref": "3/C15"
+ },
+ "C16": {
+  "level": "model_checking",
+  "technique": "exhaustive enumeration of all call histories up to length 5 (thorough 6) over the name alphabet {'',a,b,c} on the real VarNameMap (no state pruning) and up to length 3/4 through the Manager API on 5 kinds, reference name model, table preservation check",
+  "text": "Every call history in the bound runs on a fresh real object; after every call the name bijection invariants, error contents and (manager level) level/var permutations and the tables of all pre-existing handles are checked against the model.",
+  "note": "no reordering inside these histories; unicode/random names not enumerated; VarNameMap::clone is outside the property (observed as outcome)",
+  "ref": "3/C16"
+ },
+ "C17": {
+  "level": "model_checking",
+  "technique": "explicit-state breadth-first search over the real RawTable with exact state de-duplication on the concrete slot array (verif_dump hook) to a fixed point for 6 keys under 4 adversarial hash assignments (thorough: 7-8 keys, 14 keys depth-bounded), BTreeSet reference model, invariants in every state",
+  "text": "All reachable states of the table for the small key universes are enumerated to a fixed point with every transition executed on the real code; in every state find/get/iter/len/drain/into_iter/retain agree with the model, probing terminates, and the free/tombstone accounting that guarantees termination holds.",
+  "note": "state = (slot array, len, free) via the cfg(oxidd_verif) hook; key type without Drop; 14-key universes only depth-bounded",
+  "ref": "3/C17"
+ },
+ "C18": {
+  "level": "exploration",
+  "technique": "bounded-exhaustive enumeration: all circuits up to 2 gates x 3 literals / 3 gates x 2 literals over the full literal alphabet (2e8 quick, 4.5e9 thorough) against an own evaluator and the five normal-form conditions; all token sequences up to length 5/6 per format, every prefix and position x byte substitution of the crate's example inputs, all small AIGs in ASCII and binary",
+  "text": "Circuit::simplify is run on every circuit in the bound and compared with an independent truth-table evaluator, cycle/unknown-input detection and the documented normal form; the parsers are run on every enumerated byte string and must return Ok or Err; ASCII and binary AIGER encodings of every small AIG must parse to equal problems that also match the harness's own model.",
+  "note": "full 3x3x3 circuit bound not enumerable; dangling gate references (undocumented) not judged; header counts at MAX_CAPACITY are open known findings",
+  "ref": "3/C18"
+ },
+ "C19": {
+  "level": "model_checking",
+  "technique": "exhaustive enumeration of C-API call sequences (depth 2 over 36-41 calls, depth 3 over a 24-call core; thorough 3/4) on a pool of 3 handles + INVALID, mirrored call-by-call on a Rust-API twin, whole-surface sweep of all exported entry points from every shallow state; ownership audited through exact node reference counts and the manager's strong count",
+  "text": "After every C call the returned handle's validity and table are compared with the Rust twin, the reference count of every stored node and of the manager must match exactly the handles the harness owns under the documented ownership rules, and at the end of every sequence unref+gc leaves no node.",
+  "note": "C API compiled unchanged as rlib through a shim package; manager strong count read from the Arc header (offset calibrated per manager); failing-allocation variant not enumerated (INVALID injected instead)",
+  "ref": "3/C19"
+ }
 }
 PENDING = {}
 props=[json.loads(l) for l in open('/verif/properties.jsonl')]
